@@ -32,6 +32,7 @@ fn main() {
     }
     let code = match args[1].as_str() {
         "replay" => replay::main(&args[2..]),
+        "after" => replay::after(&args[2..]),
         "mkpatch" => codec::mkpatch(&args[2..]),
         "zdec" => codec::zdec(&args[2..]),
         "zenc" => codec::zenc(&args[2..]),
